@@ -244,7 +244,9 @@ theorem channel_write_map_eq (s : CChannel) (n : Nat) (hw : Wf s) :
     | .block => channel_write_map s n = (0, { s with blocked := 1 })
     | .ok beg c' => (channel_write_map s n).1 = s.data + beg ∧ abs (channel_write_map s n).2 = c' ∧
         (channel_write_map s n).2.blocked = s.blocked ∧ (channel_write_map s n).2.notified = s.notified ∧
-        (channel_write_map s n).2.data = s.data := by
+        (channel_write_map s n).2.data = s.data ∧
+        (channel_write_map s n).2.holds_pos.length = s.holds_pos.length ∧
+        (channel_write_map s n).2.holds_cycles.length = s.holds_cycles.length := by
   unfold writeMap
   by_cases hcap : n ≥ s.capacity
   · have : n ≥ (abs s).cap := hcap
@@ -301,9 +303,11 @@ theorem channel_write_map_eq (s : CChannel) (n : Nat) (hw : Wf s) :
             have e2 : s1.holds_cycles = s.holds_cycles := by rw [← hs1]; split <;> rfl
             have e3 : s1.holds_n = s.holds_n := by rw [← hs1]; split <;> rfl
             have hh := holdsOf_reset s hw s1.cycle s1 e1 e2 e3 rfl
-            have hr := (reset_fold s1 s1.holds_n (by rw [e3, e1]; exact hw.1) (by rw [e3, e2]; exact hw.2)).1
-            simp only [Nat.sub_zero] at hh hr ⊢
-            generalize List.foldl resetStep s1 (List.range' 0 s1.holds_n) = R at hr hh ⊢
+            obtain ⟨hr, hl1, hl2, _, _⟩ := reset_fold s1 s1.holds_n (by rw [e3, e1]; exact hw.1) (by rw [e3, e2]; exact hw.2)
+            simp only [Nat.sub_zero] at hh hr hl1 hl2 ⊢
+            generalize List.foldl resetStep s1 (List.range' 0 s1.holds_n) = R at hr hh hl1 hl2 ⊢
+            rw [e1] at hl1
+            rw [e2] at hl2
             have f1 : R.data = s1.data := by rw [hr]
             have f2 : R.capacity = s1.capacity := by rw [hr]
             have f3 : R.head = s1.head := by rw [hr]
@@ -317,10 +321,10 @@ theorem channel_write_map_eq (s : CChannel) (n : Nat) (hw : Wf s) :
             · subst hb
               simp only [not_true_eq_false, ↓reduceIte] at hs1
               subst hs1
-              simp [abs, ha, f1, f2, f3, f4, f5, f6, f7, f8, f9, hh]
+              simp [abs, ha, f1, f2, f3, f4, f5, f6, f7, f8, f9, hh, hl1, hl2]
             · simp only [hb, not_false_eq_true, ↓reduceIte] at hs1
               subst hs1
-              simp [abs, ha, hb, f1, f2, f3, f4, f5, f6, f7, f8, f9, hh]
+              simp [abs, ha, hb, f1, f2, f3, f4, f5, f6, f7, f8, f9, hh, hl1, hl2]
 
 /-! ## `channel_write_unmap`, `channel_abort_write`, `channel_accept_writes` -/
 
@@ -669,5 +673,41 @@ theorem channel_read_map_notifies_iff (s : CChannel) (r : CReader) (hw : Wf s)
               · (simp_all [holdsOf_set_eq_iff, abs, absRd, Wf, holdsOf_set_pos, holdsOf_set_cyc, List.set_set, getD_set, ChannelState_Mapped, ChannelState_Unmapped,
             Channel_Error, Channel_Expected_Unmapped_Reader] <;> omega)
 
+
+/-! ## the arrays keep their length (they are only ever written element-wise) -/
+
+theorem reader_initialize_len (s : CChannel) (r : CReader) :
+    (reader_initialize s r).2.1.holds_pos.length = s.holds_pos.length ∧
+    (reader_initialize s r).2.1.holds_cycles.length = s.holds_cycles.length := by
+  unfold reader_initialize
+  split
+  · exact ⟨rfl, rfl⟩
+  · simp only []
+    split <;> simp
+
+theorem channel_read_unmap_len (s : CChannel) (r : CReader) (k : Nat) :
+    (channel_read_unmap s r k).1.holds_pos.length = s.holds_pos.length ∧
+    (channel_read_unmap s r k).1.holds_cycles.length = s.holds_cycles.length := by
+  unfold channel_read_unmap
+  simp only []
+  repeat' split
+  all_goals simp
+
+theorem channel_read_map_len (s : CChannel) (r : CReader) :
+    (channel_read_map s r).2.1.holds_pos.length = s.holds_pos.length ∧
+    (channel_read_map s r).2.1.holds_cycles.length = s.holds_cycles.length := by
+  obtain ⟨l1, l2⟩ := reader_initialize_len s r
+  unfold channel_read_map
+  cases hri : reader_initialize s r with
+  | mk ret p =>
+    cases p with
+    | mk s1 r1 =>
+      rw [hri] at l1 l2
+      simp only at l1 l2
+      simp only []
+      rw [← l1, ← l2]
+      constructor <;>
+        simp [apply_ite Prod.snd, apply_ite Prod.fst, apply_ite CChannel.holds_pos, apply_ite CChannel.holds_cycles,
+          apply_ite List.length]
 
 end AcqVerif.Channel.Translated
